@@ -220,10 +220,14 @@ where
 
         let mut ch = 0;
         let (remaining_input, subframes) = bits(many_m_n(channels, channels, |i| {
-            let ret = subframe::<(BitInput<'a>, nom::error::ErrorKind)>(
-                block_size,
-                bits_per_sample + header.channel_assignment().bits_per_sample_offset(ch),
-            )(i);
+            let subframe_bits =
+                bits_per_sample + header.channel_assignment().bits_per_sample_offset(ch);
+            if subframe_bits > MAX_BITS_PER_SAMPLE + 1 {
+                // not supported (e.g. a side channel of a 25-bit stream)
+                return Err(nom::Err::Error((i, nom::error::ErrorKind::TagBits)));
+            }
+            let ret =
+                subframe::<(BitInput<'a>, nom::error::ErrorKind)>(block_size, subframe_bits)(i);
             ch += 1;
             ret
         }))(remaining_input)
